@@ -23,6 +23,7 @@ from __future__ import annotations
 import asyncio
 import os
 import random
+from harness.lib.looputil import permute_ready
 
 TERMINAL = ("SKIPPED", "COMPLETED", "FAILED", "CANCELLED")
 
@@ -53,10 +54,7 @@ class PermLoop(asyncio.SelectorEventLoop):
             if not f.done():
                 f.set_result(None)      # the loop would block for ever: wake the harness
         if len(self._ready) > 1:
-            lst = list(self._ready)
-            self._prng.shuffle(lst)
-            self._ready.clear()
-            self._ready.extend(lst)
+            permute_ready(self._ready, self._prng.shuffle)   # thread-safe, same order (harness/lib/looputil.py)
         super()._run_once()
 
 
